@@ -3,6 +3,7 @@ import Ucan.Props.Tie.ChainOrder
 import Ucan.Props.Tie.ChainTime
 import Ucan.Props.Tie.ChainProofs
 import Ucan.Props.Tie.ChainArgs
+import Ucan.Props.Tie.ChainLoad
 /-! Regenerated-code tie for `executionAllowed` (C01–C05): the four stages run in the model's order and hand the loaded
 delegations from one to the next. `loadProofs` (it talks to the caller's loader), `ToIPLD` (the conversion of the caller's
 arguments) and `matchStatement` (the statement evaluator) are parameters of the regenerated code; `verifyArgs` and
@@ -19,27 +20,27 @@ def liftE {α} (r : Except Chain.Err α) : GoM α := r.mapError chainErr
 /-- the full translation of `executionAllowed` is the shell translation (`ChainOrder`) with the regenerated stages for
 its parameters: both come from the same Go function body -/
 theorem Inv_executionAllowed_is_shell {S N : Type} (now : Int)
-    (extLoad : Gen.InvTok D C → L → GoM (List (Gen.DlgTok D S)))
+    (extGet : L → C → GoM (Gen.DlgTok D S))
     (extMS : Option S → N → (Int × Option S)) (extIPLD : A → GoM N)
     (g : Gen.InvTok D C) (loader : L) (a : A) :
-    Gen.Inv_executionAllowed now extLoad extMS extIPLD g loader a =
-      Gen.Inv_executionAllowed_shell extLoad Gen.Inv_verifyProofs (Gen.Inv_verifyTimeBound now)
+    Gen.Inv_executionAllowed now extGet extMS extIPLD g loader a =
+      Gen.Inv_executionAllowed_shell (Gen.Inv_loadProofs extGet) Gen.Inv_verifyProofs (Gen.Inv_verifyTimeBound now)
         (Gen.Inv_verifyArgs extMS extIPLD) g loader a := rfl
 
 /-- `executionAllowed`, regenerated: load, then `verifyProofs`, then `verifyTimeBound` at the instant `now`, then
 `verifyArgs`; the first failing stage decides. The two middle stages are the model's. -/
 theorem Inv_executionAllowed_stages {X : Type} (x : X) (args : Node) (undef : D) (pol) (now : Int)
-    (extLoad : Gen.InvTok D C → L → GoM (List (Gen.DlgTok D Policy.Stmt)))
+    (extGet : L → C → GoM (Gen.DlgTok D Policy.Stmt))
     (extIPLD : A → GoM Node)
     (g : Gen.InvTok D C) (loader : L) (a : A) (hs : g.subject ≠ undef)
-    (hlen : ∀ ds, extLoad g loader = .ok ds → ds.length = g.proof.length) :
-    Gen.Inv_executionAllowed now extLoad extMatch extIPLD g loader a =
-      (extLoad g loader >>= fun ds =>
+    (hlen : ∀ ds, Gen.Inv_loadProofs extGet g loader = .ok ds → ds.length = g.proof.length) :
+    Gen.Inv_executionAllowed now extGet extMatch extIPLD g loader a =
+      (Gen.Inv_loadProofs extGet g loader >>= fun ds =>
         liftE (Chain.verifyProofs (toInv x args g) (ds.map (toDlg undef pol))) >>= fun _ =>
         liftE (Chain.verifyTime now (toInv x args g) (ds.map (toDlg undef pol))) >>= fun _ =>
         Gen.Inv_verifyArgs extMatch extIPLD g ds a) := by
   unfold Gen.Inv_executionAllowed Gen.Inv_verifyTimeBound
-  cases hl : extLoad g loader with
+  cases hl : Gen.Inv_loadProofs extGet g loader with
   | error e => simp [bind, Except.bind]
   | ok ds =>
     have hlen' := hlen ds hl
@@ -56,18 +57,16 @@ theorem Inv_executionAllowed_stages {X : Type} (x : X) (args : Node) (undef : D)
 /-- with the model's `loadProofs` and statement evaluator for the parameters, the regenerated `executionAllowed` IS the
 model's `executionAllowed` (the function `C01_sound … C05_complete` are about) -/
 theorem Inv_executionAllowed_eq {X : Type} (x : X) (args : Node) (undef : D) (pol) (now : Int)
-    (extLoad : Gen.InvTok D C → L → GoM (List (Gen.DlgTok D Policy.Stmt)))
+    (extGet : L → C → GoM (Gen.DlgTok D Policy.Stmt))
     (extIPLD : A → GoM Node)
     (ldG : C → Option (Gen.DlgTok D Policy.Stmt))
     (g : Gen.InvTok D C) (loader : L) (a : A) (hs : g.subject ≠ undef)
-    (hload : extLoad g loader =
-      match g.proof.mapM ldG with
-      | some ds => .ok ds
-      | none => .error (chainErr .missingDelegation))
+    (hl : LoaderIs extGet loader ldG)
     (hipld : extIPLD a = .ok args)
     (hpol : ∀ c d, ldG c = some d → d.policy = (pol d).map some) :
-    Gen.Inv_executionAllowed now extLoad extMatch extIPLD g loader a =
+    Gen.Inv_executionAllowed now extGet extMatch extIPLD g loader a =
       liftE (Chain.executionAllowed (fun c => (ldG c).map (toDlg undef pol)) now (toInv x args g) args) := by
+  have hload := Inv_loadProofs_eq extGet loader ldG hl g
   have hmodel : ∀ (cs : List C),
       Chain.loadProofs (fun c => (ldG c).map (toDlg undef pol)) cs =
         match cs.mapM ldG with
@@ -117,7 +116,7 @@ theorem Inv_executionAllowed_eq {X : Type} (x : X) (args : Node) (undef : D) (po
           rcases List.mem_cons.1 hd with h1 | h1
           · exact ⟨c, by rw [hc, h1]⟩
           · exact ih ds' hm d h1
-  have hlen : ∀ ds, extLoad g loader = .ok ds → ds.length = g.proof.length := by
+  have hlen : ∀ ds, Gen.Inv_loadProofs extGet g loader = .ok ds → ds.length = g.proof.length := by
     intro ds h
     rw [hload] at h
     cases hm : g.proof.mapM ldG with
@@ -126,7 +125,7 @@ theorem Inv_executionAllowed_eq {X : Type} (x : X) (args : Node) (undef : D) (po
       simp [hm] at h
       subst h
       exact hlenM _ _ hm
-  rw [Inv_executionAllowed_stages x args undef pol now extLoad extIPLD g loader a hs hlen, hload]
+  rw [Inv_executionAllowed_stages x args undef pol now extGet extIPLD g loader a hs hlen, hload]
   unfold Chain.executionAllowed
   have hprf : (toInv x args g).prf = g.proof := rfl
   rw [hprf, hmodel g.proof]
